@@ -108,9 +108,21 @@ def zi(v): return ("m%d" % -v) if v < 0 else str(v)
 
 def css_ident(s):
     return s
+FULL = {"on": False}
+def gen_not_arg_full(rng, depth):
+    """an argument of :not() from the full grammar: a compound of 1..3 simples, possibly nested negations"""
+    k = rng.choice([1, 1, 2, 2, 3])
+    ty = gen_type(rng) if rng.randrange(2) else ("", "")
+    parts = [gen_simple(rng, depth + 1) for _ in range(k - (1 if ty[0] else 0))]
+    parts = [q for q in parts if not q[1].startswith("T")]
+    if not ty[0] and not parts: return ("*", "A")
+    return (ty[0] + "".join(q[0] for q in parts), ".".join(([ty[1]] if ty[1] else []) + [q[1] for q in parts]))
 def gen_simple(rng, depth=0):
     """returns (css string, structure string)"""
     c = rng.randrange(100)
+    if FULL["on"] and c >= 80 and c < 92 and depth < 3:
+        args = [gen_not_arg_full(rng, depth) for _ in range(rng.choice([1, 1, 2, 3]))]
+        return (":not(%s)" % ", ".join(a[0] for a in args), "X(%s)" % "!".join(a[1] for a in args))
     if c < 14:
         v = rng.choice(["a", "b", "x", "y", "A"]); return ("#" + v, "I" + hx(v))
     if c < 30:
@@ -119,7 +131,7 @@ def gen_simple(rng, depth=0):
         n = rng.choice(ATTRN); return ("[%s]" % n, "E" + hx(n.lower()))
     if c < 66:
         n = rng.choice(ATTRN); v = rng.choice(ATTRV + ["a", "b", "x"]); op = rng.choice(["=", "~=", "|=", "^=", "*=", "$="])
-        if v == "" and op in ("~=", "^=", "$=") and rng.randrange(4): v = "a"     # empty operands are a known finding class; keep them rare
+        if v == "" and op in ("~=", "^=", "$=") and rng.randrange(4) and not FULL["on"]: v = "a"
         flag = rng.choice(["", "", "", " i", " s"])
         opc = {"=": "e", "~=": "i", "|=": "d", "^=": "p", "*=": "s", "$=": "x"}[op]
         cs = "i" if flag == " i" else ("s" if flag == " s" else ("h" if n.lower() in CI_ATTRS else "s"))
@@ -143,6 +155,8 @@ def gen_simple_no_not(rng):
         s = gen_simple(rng, 9)
         if not s[0].startswith(":not") : return s
 def gen_type(rng):
+    if FULL["on"] and rng.randrange(25) == 0:
+        t = rng.choice(["1a", "1h1", "2b", "6"]); return ("\\3%s %s" % (t[0], t[1:]), "T" + hx(t))      # digit-initial names need a CSS escape
     c = rng.randrange(10)
     if c < 6:
         t = rng.choice(TAGS + VOIDS + ["svg", "g", "path", "DIV", "Span"]); return (t, "T" + hx(t))
@@ -261,6 +275,43 @@ def l2_doc(rng, depth=0, foreign=False):
         else:
             out += rng.choice([b"<!DOCTYPE html>", b"<p>", b"<li>", b"<?pi?>", b"<![CDATA[x]]>"])
     return out
+
+def tagsoup(rng):
+    """flat random tag sequence: mis-nesting, stray end tags, voids, case variants, duplicate attributes, foreign self-closing"""
+    out = b""
+    names = ["a", "b", "div", "p", "span", "li", "h1", "x1", "my-el", "A", "DIV", "Span"]
+    for _ in range(rng.randrange(2, 14)):
+        c = rng.randrange(20)
+        if c < 9:
+            t = rng.choice(names + VOIDS + ["svg", "g", "path", "math", "mi"])
+            attrs = b""
+            for _ in range(rng.choice([0, 0, 1, 1, 2, 3])):
+                nm = rng.choice(ATTRN); v = rng.choice(ATTRV)
+                attrs += b" " + nm.encode() + rng.choice([b"", b"=" + (v.replace(" ", "_") or "x").encode(), b'="' + v.encode() + b'"', b"='" + v.encode() + b"'"])
+            out += b"<" + t.encode() + attrs + rng.choice([b"", b"", b"", b"/", b" /"]) + b">"
+        elif c < 15:
+            out += b"</" + rng.choice(names + ["svg", "g", "math", "br", "p"]).encode() + rng.choice([b"", b" ", b" x=y"]) + b">"
+        elif c < 18:
+            out += rng.choice([b"t", b"some text", b"<!--c-->", b"\n"])
+        else:
+            out += rng.choice([b"<title>a<b></title>", b"<script>1<a>2</script>", b"<textarea><p></textarea>", b"<!DOCTYPE html>"])
+    return out
+
+def gen_c04(rng, n, prefix="s"):
+    FULL["on"] = True
+    try:
+        isz = 104
+        for i in range(n):
+            r = rng.randrange(10)
+            data = l2_doc(rng) if r < 5 else (tagsoup(rng) if r < 9 else doc(rng, 8))
+            toks = []
+            for _ in range(rng.choice([1, 2, 3, 4, 6])):
+                css, st = gen_selector(rng)
+                toks.append("sel=%s~%s~~-~-" % (hx(css), st))
+            ch = chunkings(rng, data)
+            yield "L2 %s%d isz=%d strict=0 %s ops=%s" % (prefix, i, isz, " ".join(toks), ",".join(["W" + c.hex() for c in ch] + ["E"]))
+    finally:
+        FULL["on"] = False
 
 def gen_l2(rng, n, profile, prefix):
     isz = int(open('/verif/build/itemsize.txt').read().strip()) if __import__('os').path.exists('/verif/build/itemsize.txt') else 104
@@ -401,6 +452,8 @@ def main():
         for l in gen_pairs(rng, max(1, n // 4)): print(l)
     elif fam == "mem":
         for l in gen_mem(rng, max(1, n // 10)): print(l)
+    elif fam == "c04":
+        for l in gen_c04(rng, n): print(l)
     elif fam == "l1fail":
         for l in gen_l1fail(rng, n): print(l)
     else:
